@@ -138,7 +138,7 @@ CLAIMS = {
              'reward by the beacon colour), reduce_sum = the parts in order, reduce_any/all, exit reward <-> exit termination in any composition, '
              'totality under the documented preconditions.  Components are pure functions in the model (no Rand), i.e. deterministic. Reward '
              'values are symbolic (which float parameter / 0.0 / parameter x distance / sum), evaluated by python itself, so comparison with the '
-             'code is exact.  Not proved: that the model BFS equals the shortest-path length (it is compared with the code and with an independent BFS).',
+             'code is exact.  The breadth-first search behind getting_closer_shortest_path is PROVED correct (Lemmas/BfsL.v): its answer is the minimal number of moves over cells that do not block movement, None iff unreachable, the fuel always suffices (counting argument over duplicate-free visited cells).',
         design='8/C12', note=TB),
     'C13': dict(
         level='proof',
